@@ -320,11 +320,23 @@ func randModelGlyph(r *rng) *mGlyph {
 		g.sby = r.rangeInt(-30, 30)
 		g.wy = r.rangeInt(-20, 20)
 	}
-	for k := r.intn(3); k > 0; k-- {
-		g.hstems = append(g.hstems, [2]int{r.rangeInt(-200, 800), r.rangeInt(1, 200)})
+	// widths: mostly positive; also the ghost stems (-20, -21), other negative widths and zero (a foreign font may
+	// hold them: the edges are stored as given), in any order of positions
+	width := func() int {
+		if r.chance(1, 5) {
+			return pick(r, []int{-20, -21, -19, -22, -1, -5, -100, 0})
+		}
+		return r.rangeInt(1, 200)
 	}
-	for k := r.intn(3); k > 0; k-- {
-		g.vstems = append(g.vstems, [2]int{r.rangeInt(-100, 800), r.rangeInt(1, 200)})
+	nh, nv := r.intn(3), r.intn(3)
+	if r.chance(1, 8) {
+		nh, nv = r.rangeInt(3, 5), r.rangeInt(3, 4)
+	}
+	for k := nh; k > 0; k-- {
+		g.hstems = append(g.hstems, [2]int{r.rangeInt(-200, 800), width()})
+	}
+	for k := nv; k > 0; k-- {
+		g.vstems = append(g.vstems, [2]int{r.rangeInt(-100, 800), width()})
 	}
 	g.dotsection = r.chance(1, 8)
 	coord := func() rat2 {
@@ -540,7 +552,7 @@ func (mf *modelFont) renderParts(r *rng) (*renderFont, renderLayout) {
 	rf.LenIV = pick(r, []int{-1, -1, 4, 0, 1, 7})
 	_ = 0
 	l := renderLayout{Format: pick(r, []string{"pfa", "pfa", "binary", "pfb", "clear"}), AltNames: r.chance(1, 2), HexUpper: r.chance(1, 2),
-		HexWidth: pick(r, []int{32, 2, 3, 40, 1000000}), WS: pick(r, []string{" ", "  ", "\t", " % comment\n"}), CSIV: byte(r.intn(256))}
+		HexWidth: pick(r, []int{32, 2, 3, 40, 1000000}), HexDigits: pick(r, []int{0, 0, 0, 1, 5, 7, 33, 63, 64, 65, 79, 255}), WS: pick(r, []string{" ", "  ", "\t", " % comment\n"}), CSIV: byte(r.intn(256))}
 	if mf.forceFormat != "" {
 		l.Format = mf.forceFormat
 	}
